@@ -2,6 +2,7 @@
 # ./mutcheck2.sh <patch.diff> <prop> [tier] [extra check args]: like mutcheck.sh but on a scratch worktree (/tmp/wt/mut.$$),
 # so that it can run while /repo is in use; the check reads the tree through VERIF_REPO.
 patch="$1"; prop="$2"; tier="${3:-quick}"; shift 3 2>/dev/null
+mkdir -p /tmp/wt
 wt=/tmp/wt/mut.$$
 git -C /repo worktree add -q --detach $wt HEAD || exit 2
 git -C $wt apply "$patch" || { echo "patch does not apply"; git -C /repo worktree remove --force $wt; exit 2; }
